@@ -105,6 +105,8 @@ fn main() {
         "c13enc" => hufx::c13enc(rest),
         "zfexec" => zf::zfexec(rest),
         "seqrows" => zf::seqrows(rest),
+        "dictinfo" => zf::dictinfo(rest),
+        "c09trained" => zf::c09trained(rest),
         "mkcorpus" => gen::mkcorpus(rest),
         "encexec" => enc::encexec(rest),
         "encgraph" => enc::encgraph(rest),
